@@ -495,6 +495,12 @@ def oracle_C03(spec, tr, init, exo_dis=None):
 				want += sum(ed['iopl'], F(0)) + ed['bo'] + ed['odi']
 			if ed['oo'] != want:
 				bad.append('t=%d edge%d%s: on-order %s != ordered-not-yet-received %s' % (t, e, (a, b), ed['oo'], want))
+			nd = spec['nodes'][str(labels[b])]
+			rp_now = bool(nd['dis'] and nd['dis']['type'] == 'RP' and st['nodes'][b]['disrupted'])
+			if not rp_now and ed['idi'] != 0:
+				bad.append('t=%d edge%d%s: %s units still held at the door although no receipt-pausing disruption is active' % (t, e, (a, b), ed['idi']))
+			if rp_now and ed['is'] != 0:
+				bad.append('t=%d edge%d%s: received %s during a receipt-pausing disruption' % (t, e, (a, b), ed['is']))
 	# order lead time: IO at t+olt equals OQ at t
 	for e, (a, b) in enumerate(edges):
 		if a is None or b is None:
